@@ -50,7 +50,7 @@ def cur() -> "Explorer":
 
 
 class Explorer:
-    def __init__(self, prefix=(), logic="QF_NRA", timeout_ms=8000, max_branches=4000):
+    def __init__(self, prefix=(), logic="QF_NRA", timeout_ms=8000, max_branches=4000, shard=None):
         self.solver = z3.SolverFor(logic) if logic else z3.Solver()
         self.solver.set("timeout", timeout_ms)
         self.decisions = [list(d) for d in prefix]  # [kind, value, n, exhausted]
@@ -65,6 +65,10 @@ class Explorer:
         self.nbranch = 0
         self.retries = 0
         self._asserted = set()
+        # sharding: the first len(shard) two-sided binary decisions are pinned to the given values,
+        # so 2^d workers partition one decision tree between them
+        self.shard = list(shard or [])
+        self.free_seen = 0
         self.retry_timeout_ms = 60000
         self._last_model_solver = None
 
@@ -145,8 +149,10 @@ class Explorer:
             d = self.decisions[self.pos]
             self.pos += 1
             assert d[0] == "b", "decision replay diverged (non-deterministic harness?)"
-            if True:  # forced sides are implied by the path condition, but asserting them helps nlsat
-                self._add(cond if d[1] else z3.Not(cond))
+            if d[2] == 2:
+                self.free_seen += 1
+            # forced sides are implied by the path condition, but asserting them helps nlsat
+            self._add(cond if d[1] else z3.Not(cond))
             return d[1]
         side = None
         if self.model is not None:
@@ -167,6 +173,16 @@ class Explorer:
             raise Inconclusive("branch feasibility unknown")
         both = ro == z3.sat
         if both:
+            if self.free_seen < len(self.shard):
+                val = bool(self.shard[self.free_seen])
+                self.free_seen += 1
+                self.decisions.append(["b", val, 2, True])
+                self.pos += 1
+                self._add(cond if val else z3.Not(cond))
+                if val != side:
+                    self.model = None
+                return val
+            self.free_seen += 1
             self.decisions.append(["b", True, 2, False])
             self.pos += 1
             self._add(cond)
@@ -177,6 +193,11 @@ class Explorer:
         self.pos += 1
         self._add(cond if side else z3.Not(cond))
         return side
+
+    def duplicate_in_shard(self):
+        """a path that met fewer two-sided decisions than the shard pins belongs to the shard whose
+        remaining bits are all 0; in the other shards it is a duplicate"""
+        return any(self.shard[self.free_seen:])
 
     def choose(self, n: int) -> int:
         """Pure nondeterminism (random outcome, structural choice): explore all of 0..n-1."""
